@@ -20,7 +20,8 @@ MANIFEST = {
             'validator clock within +-31 s of block times; node restarts from its store. After every settle: chain-state '
             'membership vs. an independent verdict, store rows vs. accepted ids, relay count per peer and block, pool and '
             'state unchanged by rejections, later blocks still stored, no exception out of the event loop.'
-            " Bulk-download deliveries (in_response_to != 0) are generated as context in part of the runs: unvalidated installs that are only buffered, the node's fall-back to its last validated state followed as an event, dropped blocks delivered again by either route, restarts with buffered blocks, repeats by both routes; the node's reported tips are compared with the stored blocks without stored children after every settle.",
+            " Bulk-download deliveries (in_response_to != 0) are generated as context in part of the runs: unvalidated installs that are only buffered, the node's fall-back to its last validated state followed as an event, dropped blocks delivered again by either route, restarts with buffered blocks, repeats by both routes; the node's reported tips are compared with the stored blocks without stored children after every settle."
+            " Further context and races: a slow peer whose answer to the node's own request arrives after the block was stored by another route; bulk-download bursts of up to 120 (thorough: 1001) requested blocks; the node's other thread flushing the store inside the validation of a relayed block (what it makes durable is followed by the reference).",
     'note': 'Trusted: reference rules/fork choice, Bot endpoints (repo codecs as tools), simulated TCP/selector/clock; '
             'arrival order of overlapped deliveries is taken from the order in which the node installed them.',
 }
